@@ -256,6 +256,7 @@ pub fn generate_c13(rng: &mut Rng, thorough: bool) -> Vec<String> {
             for _ in 0..2 {
                 v.push(format!("tz_str {z} {y} {m} {dd} {timepart} {off} {} {}", rng.pick(&dis), rng.pick(&oos)));
             }
+            v.push(format!("tz_rel {z} {y} {m} {dd} {timepart} {off} {} -", if rng.chance(1, 5) { "plain" } else { "zoned" }));
             if off != "Z" {
                 // a partial record carries whole minutes only
                 let offp = if off == "-" { off.clone() } else {
@@ -427,7 +428,7 @@ pub fn eval(t: &[&str]) -> Option<String> {
             let r = ZonedDateTime::from_partial_with_provider(partial, Some(ArithmeticOverflow::Reject), Some(disamb(t[12])), Some(offopt(t[13])), &p);
             Some(render(r, |z| z.epoch_nanoseconds().as_i128().to_string()))
         }
-        "tz_str" => {
+        "tz_str" | "tz_rel" => {
             // tz_str zone y m d h mi s ms us ns off disamb offopt  → formats an RFC 9557 string
             let (tz, p) = zone_of(t[1]);
             let y = i(t[2]);
@@ -444,6 +445,23 @@ pub fn eval(t: &[&str]) -> Option<String> {
                 }
             }
             let id = tz.identifier().unwrap();
+            if t[0] == "tz_rel" {
+                // RelativeTo::try_from_str: a zoned string (compatible, offset must match) or, without an annotation,
+                // a plain date
+                if t[12] == "plain" {
+                    let r = RelativeTo::try_from_str_with_provider(&s, &p);
+                    return Some(render(r, |x| match x {
+                        RelativeTo::PlainDate(d) => format!("plain {} {} {}", d.iso_year(), d.iso_month(), d.iso_day()),
+                        RelativeTo::ZonedDateTime(z) => format!("zoned {}", z.epoch_nanoseconds().as_i128()),
+                    }));
+                }
+                s.push_str(&format!("[{id}]"));
+                let r = RelativeTo::try_from_str_with_provider(&s, &p);
+                return Some(render(r, |x| match x {
+                    RelativeTo::PlainDate(d) => format!("plain {} {} {}", d.iso_year(), d.iso_month(), d.iso_day()),
+                    RelativeTo::ZonedDateTime(z) => format!("zoned {}", z.epoch_nanoseconds().as_i128()),
+                }));
+            }
             s.push_str(&format!("[{id}]"));
             let r = ZonedDateTime::from_str_with_provider(&s, disamb(t[12]), offopt(t[13]), &p);
             Some(render(r, |z| z.epoch_nanoseconds().as_i128().to_string()))
